@@ -52,7 +52,7 @@ var c20Ops []c20Op
 func init() {
 	add := func(name string, code byte, i, j, arg int) { c20Ops = append(c20Ops, c20Op{name, code, i, j, arg}) }
 	for i := 0; i < 3; i++ {
-		for h := 0; h < 8; h++ {
+		for h := 0; h < 12; h++ {
 			add(fmt.Sprintf("v%d=NewVariant(host%d)", i, h), 'n', i, 0, h)
 		}
 		for l := 0; l < 2; l++ {
@@ -104,6 +104,14 @@ func c20Host(h int) (any, Val) {
 		return true, vBool(true)
 	case 6:
 		return float32(2.5), vFloat(2.5)
+	case 8:
+		return int64(math.MaxInt64), vLong(math.MaxInt64)
+	case 9:
+		return int64(math.MaxInt64 - 1), vLong(math.MaxInt64 - 1)
+	case 10:
+		return 1<<53 + 1, vInt(1<<53 + 1)
+	case 11:
+		return 1 << 53, vInt(1 << 53)
 	}
 	return "xyz", vStr("xyz")
 }
@@ -334,6 +342,9 @@ func c20Run(c *mon.Case, ops string) {
 					k := []int{0, n, n + 2}[op.arg]
 					v, r := s.freshElem()
 					s.real[i].SetByIndex(k, r)
+					if s.real[i].GetByIndex(k) != r {
+						panic("GetByIndex does not return the element object written by SetByIndex")
+					}
 					for len(s.model[i].val.E) <= k {
 						s.model[i].val.E = append(s.model[i].val.E, vNull())
 					}
@@ -500,7 +511,7 @@ func buildC20(cfg *mon.Config) []*mon.Sub {
 	depth := cfg.N(4, 5)
 	exh := &mon.Sub{
 		Name:          "operation-sequences-exhaustive",
-		Rule:          fmt.Sprintf("every sequence of %d operations over %d concrete operations on three live variants and two caller-side lists (construct from 8 host values, SetAsArray/VariantFromArray from a caller list, Assign (also of a variant to itself), Clone, NewVariant(variant), SetByIndex at 0/len/len+2, SetByIndex(0) with an equal value in a new object followed by an in-place change of that object, SetLength, Clear, SetAsInteger, caller-side list element replacement and append (fresh integers, NaN, and a position holding no variant at all); after every step all live variants are read back (type, accessor, Length, elements, IsNull, IsEmpty) and compared with the value model, Equals is evaluated on all pairs (total, symmetric, equal to model equality), a clone must equal its original; non-trivial = the sequence built an array", depth, len(c20Ops)),
+		Rule:          fmt.Sprintf("every sequence of %d operations over %d concrete operations on three live variants and two caller-side lists (construct from 12 host values, among them neighbouring integers beyond 2^53, SetAsArray/VariantFromArray from a caller list, Assign (also of a variant to itself), Clone, NewVariant(variant), SetByIndex at 0/len/len+2, SetByIndex(0) with an equal value in a new object followed by an in-place change of that object, SetLength, Clear, SetAsInteger, caller-side list element replacement and append (fresh integers, NaN, and a position holding no variant at all); after every step all live variants are read back (type, accessor, Length, elements, IsNull, IsEmpty) and compared with the value model, Equals is evaluated on all pairs (total, symmetric, equal to model equality), a clone must equal its original; non-trivial = the sequence built an array", depth, len(c20Ops)),
 		Exhaustive:    true,
 		DistinctByGen: true,
 		Floor:         1000,
